@@ -102,6 +102,23 @@ def _nz2_req(s):
             m1 * m2 <= 2**40, n1 * n2 <= 2**40]
 
 
+# completeness of the (lower-triangular) pattern: cnt(i, j) = number of qualifying pairs among those lexicographically before (i, j)
+_nz2cnt = z3.Function('nz2_count', z3.IntSort(), z3.IntSort(), z3.IntSort())
+
+
+def _nz2_qual(s, i, j):
+    b1, b2 = s.bidx
+    (m1, n1), (m2, n2) = s.block_sizes
+    return Or(Not(s.lower_tri), b1[i, 1] * n2 + b2[j, 1] <= b1[i, 0] * m2 + b2[j, 0])
+
+
+def _nz2_count_axioms(s):
+    b1, b2 = s.bidx
+    return [_nz2cnt(0, 0) == 0,
+            ForAll('i j', lambda i, j: Implies(And(0 <= i, 0 <= j, j < b2.len), _nz2cnt(i, j + 1) == _nz2cnt(i, j) + If(_nz2_qual(s, i, j), 1, 0))),
+            ForAll('i', lambda i: Implies(0 <= i, _nz2cnt(i + 1, 0) == _nz2cnt(i, b2.len)))]
+
+
 def _nz2_write(s):
     b1, b2 = s.bidx
     (m1, n1), (m2, n2) = s.block_sizes
@@ -119,17 +136,22 @@ def _nz2_write_col(s):
 ml_nonzero_2d = Contract(
     F, 'ml_nonzero_2d',
     params={'bidx': Tup(bidx_sort(), bidx_sort()), 'block_sizes': BS2(), 'lower_tri': Bool()},
-    requires=_nz2_req,
+    requires=lambda s: _nz2_req(s) + _nz2_count_axioms(s),
     loops={0: LoopSpec(r'for i in range\(Ni\)', inv=lambda s: [('count', And(0 <= s.idx, s.idx <= s.i * s.Nj)),
-                                                              ('slot', Implies(Not(s.lower_tri), s.idx == s.i * s.Nj))]),
+                                                              ('slot', Implies(Not(s.lower_tri), s.idx == s.i * s.Nj)),
+                                                              ('complete', And(s.idx == _nz2cnt(s.i, 0), s.Nj == s.bidx[1].len))]),
            1: LoopSpec(r'for j in range\(Nj\)', inv=lambda s: [('count', And(0 <= s.idx, s.idx <= s.i * s.Nj + s.j)),
                                                               ('slot', Implies(Not(s.lower_tri), s.idx == s.i * s.Nj + s.j)),
-                                                              ('i', And(0 <= s.i, s.i < s.Ni))])},
+                                                              ('i', And(0 <= s.i, s.i < s.Ni)),
+                                                              ('complete', And(s.idx == _nz2cnt(s.i, s.j), s.Nj == s.bidx[1].len))])},
     checks=[(r'IJ\[0,idx\] = I', _nz2_write), (r'IJ\[1,idx\] = J', _nz2_write_col)],
     ensures=lambda s: [],
     options={'timeout_ms': 60000},
     notes=['pattern clause is a write-time contract: each stored pair is the Kronecker position of the current (i,j), stored at rank i*Nj+j '
-           '(full pattern) resp. only if J<=I (lower_tri); idx is strictly increasing, so no slot is overwritten'],
+           '(full pattern) resp. only if J<=I (lower_tri); idx is strictly increasing, so no slot is overwritten',
+           'completeness: idx equals the number of qualifying pairs (all pairs, resp. those with J<=I) lexicographically before the current '
+           '(i,j) -- nz2_count, defined by its recurrences (assumed definitional axioms) -- so no qualifying pair is skipped and the k-th '
+           'qualifying pair is stored in slot k'],
 )
 
 
@@ -138,6 +160,23 @@ def _nz3_req(s):
     (m1, n1), (m2, n2), (m3, n3) = s.block_sizes
     return [wf_level(b1, m1, n1), wf_level(b2, m2, n2), wf_level(b3, m3, n3), b1.len <= 2**12, b2.len <= 2**12, b3.len <= 2**12,
             m1 <= 2**12, n1 <= 2**12, m2 <= 2**12, n2 <= 2**12, m3 <= 2**12, n3 <= 2**12]
+
+
+_nz3cnt = z3.Function('nz3_count', z3.IntSort(), z3.IntSort(), z3.IntSort(), z3.IntSort())
+
+
+def _nz3_qual(s, i, j, k):
+    b1, b2, b3 = s.bidx
+    (m1, n1), (m2, n2), (m3, n3) = s.block_sizes
+    return Or(Not(s.lower_tri), (b1[i, 1] * n2 + b2[j, 1]) * n3 + b3[k, 1] <= (b1[i, 0] * m2 + b2[j, 0]) * m3 + b3[k, 0])
+
+
+def _nz3_count_axioms(s):
+    b1, b2, b3 = s.bidx
+    return [_nz3cnt(0, 0, 0) == 0,
+            ForAll('i j k', lambda i, j, k: Implies(And(0 <= i, 0 <= j, 0 <= k, k < b3.len), _nz3cnt(i, j, k + 1) == _nz3cnt(i, j, k) + If(_nz3_qual(s, i, j, k), 1, 0))),
+            ForAll('i j', lambda i, j: Implies(And(0 <= i, 0 <= j), _nz3cnt(i, j + 1, 0) == _nz3cnt(i, j, b3.len))),
+            ForAll('i', lambda i: Implies(0 <= i, _nz3cnt(i + 1, 0, 0) == _nz3cnt(i, b2.len, 0)))]
 
 
 def _nz3_write(s):
@@ -157,15 +196,18 @@ def _nz3_write_col(s):
 ml_nonzero_3d = Contract(
     F, 'ml_nonzero_3d',
     params={'bidx': Tup(bidx_sort(), bidx_sort(), bidx_sort()), 'block_sizes': BS3(), 'lower_tri': Bool()},
-    requires=_nz3_req,
+    requires=lambda s: _nz3_req(s) + _nz3_count_axioms(s),
     loops={0: LoopSpec(r'for i in range\(Ni\)', inv=lambda s: [('count', And(0 <= s.idx, s.idx <= s.i * s.Nj * s.Nk)),
-                                                              ('slot', Implies(Not(s.lower_tri), s.idx == s.i * s.Nj * s.Nk))]),
+                                                              ('slot', Implies(Not(s.lower_tri), s.idx == s.i * s.Nj * s.Nk)),
+                                                              ('complete', And(s.idx == _nz3cnt(s.i, 0, 0), s.Nj == s.bidx[1].len, s.Nk == s.bidx[2].len))]),
            1: LoopSpec(r'for j in range\(Nj\)', inv=lambda s: [('count', And(0 <= s.idx, s.idx <= (s.i * s.Nj + s.j) * s.Nk)),
                                                               ('slot', Implies(Not(s.lower_tri), s.idx == (s.i * s.Nj + s.j) * s.Nk)),
-                                                              ('i', And(0 <= s.i, s.i < s.Ni))]),
+                                                              ('i', And(0 <= s.i, s.i < s.Ni)),
+                                                              ('complete', And(s.idx == _nz3cnt(s.i, s.j, 0), s.Nj == s.bidx[1].len, s.Nk == s.bidx[2].len))]),
            2: LoopSpec(r'for k in range\(Nk\)', inv=lambda s: [('count', And(0 <= s.idx, s.idx <= (s.i * s.Nj + s.j) * s.Nk + s.k)),
                                                               ('slot', Implies(Not(s.lower_tri), s.idx == (s.i * s.Nj + s.j) * s.Nk + s.k)),
-                                                              ('ij', And(0 <= s.i, s.i < s.Ni, 0 <= s.j, s.j < s.Nj))])},
+                                                              ('ij', And(0 <= s.i, s.i < s.Ni, 0 <= s.j, s.j < s.Nj)),
+                                                              ('complete', And(s.idx == _nz3cnt(s.i, s.j, s.k), s.Nj == s.bidx[1].len, s.Nk == s.bidx[2].len))])},
     checks=[(r'IJ\[0,idx\] = I', _nz3_write), (r'IJ\[1,idx\] = J', _nz3_write_col)],
     options={'timeout_ms': 90000},
 )
